@@ -280,13 +280,15 @@ Fixpoint list_eqb' {A} (eqb : A -> A -> bool) (a b : list A) : bool :=
   | _, _ => false
   end.
 
-(* a case: the scripted history, the per-op observations of the real objects, the real event log *)
-Definition case := (list op * list obs * list event)%type.
+(* a case: the scripted history, the per-op observations of the real objects, the blocks the real
+   writers wrote (in order).  Cancel() calls are compared through the per-op [canceled] flag only, so that
+   a redundant or a dropped redundant Cancel() of an already dead processor is not a mismatch. *)
+Definition case := (list op * list obs * list saveev)%type.
 
 Definition check (c : case) : bool :=
   match c with
   | (ops, ob, evs) =>
       match run_obs init ops with
-      | (ob', evs') => list_eqb' obs_eqb ob' ob && list_eqb' event_eqb evs' evs
+      | (ob', evs') => list_eqb' obs_eqb ob' ob && list_eqb' saveev_eqb (saves evs') evs
       end
   end.
